@@ -16,6 +16,9 @@ I32MIN, I32MAX, U32MAX = -2**31, 2**31 - 1, 2**32 - 1
 #  subnormal, Rational(int64,int64) with INT64_MIN, the static constants zero/one/mOne - are repaired in /repo; their sites are judged like every other site now)
 
 
+S_LE = ("Rational::operator<= (member declaration, givrational.h)", "a <= b ambiguous under ISO overload resolution")
+
+
 def merge_frag_findings():
     """Until the coordinator has merged frag/C10.findings.json into known_findings.json, the check reads the
     fragment itself (entries whose site is not yet listed for C10 in known_findings.json)."""
@@ -590,6 +593,20 @@ def main(tier, replay=None):
     if himpl is None:
         chk.broke("implementation harness does not compile against /repo", l2)
         return chk.finish()
+    # 2b. compile probe: the six operators on two Rationals must resolve under ISO C++ (no g++ extension)
+    probe = os.path.join(vf.ROOT, "harness", "c10_probe_ops.C")
+    rcp, outp = vf.sh([vf.CXX, "-std=gnu++11", "-DHAVE_CONFIG_H", "-fsyntax-only", "-pedantic-errors"] + vf.inc_flags() + [probe], timeout=300)
+    chk.count(("probe", "operators"), nontrivial=True)
+    if rcp != 0:
+        amb = [l for l in outp.splitlines() if "error" in l]
+        ops = sorted(set(o for o in ("<=", ">=", "==", "!=", "<", ">") for l in outp.splitlines()
+                         if ("operator" + o + "(" in l.replace(" ", "")) and "candidate" in l))
+        if amb and all("ambiguous" in l for l in amb) and ops == ["<="]:
+            chk.fail_input(S_LE[0], S_LE[1], {"variant": "compile probe harness/c10_probe_ops.C", "red": 1, "args": [], "model_op": "-", "model_args": [], "kind": "raw", "exp": "compiles"},
+                           "compiles", "\n".join(amb[:4]), "a <= b does not resolve under ISO C++ overload resolution")
+        else:
+            chk.fail_input("Rational comparison operators (compile probe)", "", {"variant": "compile probe harness/c10_probe_ops.C", "red": 1, "args": [], "model_op": "-", "model_args": [], "kind": "raw", "exp": "compiles"},
+                           "compiles", outp[-1500:], "the six operators on two Rationals do not compile with -pedantic-errors")
     # 3. cases
     cov = {}
     if replay:
